@@ -159,6 +159,48 @@ def detect(sid, tier="quick", props=None):
     # restore evidence of the unchanged tree later (caller's job)
 
 
+def harmless(area, n, props, srcroot="/tmp/seedout3"):
+    """Store a behaviour-preserving refactoring as /verif/seeded/H-<area>-<n>/ and run the named checks with it
+    applied: every alarm is a false alarm (or, if it comes with a failing input, a mistaken 'harmless' claim)."""
+    sid = f"H-{area}-{n}"
+    d = os.path.join(VERIF, "seeded", sid)
+    os.makedirs(d, exist_ok=True)
+    src = os.path.join(srcroot, area)
+    if os.path.exists(os.path.join(src, f"patch{n}.diff")):
+        shutil.copyfile(os.path.join(src, f"patch{n}.diff"), os.path.join(d, "patch.diff"))
+        note = open(os.path.join(src, f"note{n}.txt")).read() if os.path.exists(os.path.join(src, f"note{n}.txt")) else ""
+    else:
+        note = json.load(open(os.path.join(d, "meta.json"))).get("change", "")
+    mp = os.path.join(d, "meta.json")
+    mj = json.load(open(mp)) if os.path.exists(mp) else {"seed": sid, "kind": "harmless", "change": note.strip(), "runs": {}}
+    rc, out = sh(["git", "-C", REPO, "status", "--porcelain"])
+    if out.strip():
+        raise SystemExit("/repo is not clean:\n" + out)
+    rc, out = sh(["git", "-C", REPO, "apply", os.path.join(d, "patch.diff")])
+    if rc != 0:
+        raise SystemExit("patch does not apply: " + out)
+    saved = {}
+    for p in props:
+        ep = os.path.join(VERIF, "evidence", f"{p}.json")
+        if os.path.exists(ep):
+            saved[ep] = open(ep).read()
+    try:
+        rc, out = sh(["go", "test", "-vet=off", "-count=1", ".", "./internal/...", "./cmd/..."], cwd=REPO, env=GOENV)
+        mj["suite_passes"] = rc == 0
+        for p in props:
+            t0 = time.time()
+            rc, out = sh([os.path.join(VERIF, "check"), p, "quick"], cwd=VERIF, timeout=7200)
+            viol = [l for l in out.split("\n") if l.startswith("VIOLATION")]
+            mj["runs"][p] = {"exit": rc, "violations": viol, "wall_s": round(time.time() - t0, 1)}
+            print(sid, p, "quiet" if rc == 0 else "ALARM", viol[:3])
+    finally:
+        sh(["git", "-C", REPO, "checkout", "--", "."])
+        sh(["git", "-C", REPO, "clean", "-fdq"])
+        for ep, txt in saved.items():
+            open(ep, "w").write(txt)
+    json.dump(mj, open(mp, "w"), indent=1)
+
+
 def table():
     root = os.path.join(VERIF, "seeded")
     print("| seed | property | change | needs | caught by |")
@@ -168,6 +210,8 @@ def table():
         if not os.path.exists(mp):
             continue
         m = json.load(open(mp))
+        if m.get("kind") == "harmless":
+            continue
         caught = [k for k, v in m.get("detection", {}).items() if v.get("caught")]
         missed = [k for k, v in m.get("detection", {}).items() if not v.get("caught")]
         keys = []
@@ -187,5 +231,7 @@ if __name__ == "__main__":
         confirm(a[1], a[2], a[3] if len(a) > 3 else None, a[4] if len(a) > 4 else None)
     elif a[0] == "detect":
         detect(a[1], a[2] if len(a) > 2 else "quick", a[3:] or None)
+    elif a[0] == "harmless":
+        harmless(a[1], a[2], a[3:])
     elif a[0] == "table":
         table()
